@@ -49,18 +49,18 @@ def scope_bindings(tier):
     for name in "AB":
         for proto in ("can", "default"):
             for typ in ("A", "B", "W", "Z"):
-                for id_ in (None, 1, 2):
+                for id_ in (None, 0, 1):
                     fields = (("id", id_),) if id_ is not None else ()
                     opts.append(("impl", proto, typ, name, fields, ()))
     cases = []
     for il in lists_upto(opts, 2):
         cases.append(("bindings", BIND_STRUCTS + list(il)))
-    red = [o for o in opts if o[2] in ("A", "W") and (o[4] == () or o[4] == (("id", 1),))] if tier == "quick" else [o for o in opts if o[2] != "B"]
+    red = [o for o in opts if o[2] in ("A", "W") and (o[4] == () or o[4] == (("id", 0),))] if tier == "quick" else [o for o in opts if o[2] != "B"]
     for il in itertools.product(red, repeat=3):
         cases.append(("bindings3", BIND_STRUCTS + list(il)))
     # parser-like trees: one default binding per struct (name = struct name) plus explicit CAN bindings
     defaults = [("impl", "default", s[1], None, (), ()) for s in BIND_STRUCTS]
-    cans = [("impl", "can", t, n, ((("id", i),) if i is not None else ()), ()) for t in ("A", "B") for n in (None, "R") for i in (None, 1, 2)]
+    cans = [("impl", "can", t, n, ((("id", i),) if i is not None else ()), ()) for t in ("A", "B") for n in (None, "R") for i in (None, 0, 1, 2047)]
     for il in lists_upto(cans, 2):
         cases.append(("parserlike", BIND_STRUCTS[:2] + defaults[:2] + list(il)))
     return cases
@@ -183,6 +183,62 @@ def make_worker(tier):
     return work
 
 
+HIST_TREES = [
+    ("pass-small", [("struct", "A", (("x", 0, U(8), None, None),)), ("impl", "can", "A", None, (("id", 1),), ())]),
+    ("fail-dup-field", [("struct", "A", (("x", 0, U(8), None, None), ("x", 1, U(8), None, None))), ("impl", "can", "A", None, (("id", 1),), ())]),
+    ("A-is-72-bits", [("struct", "A", (("x", 0, U(64), None, None), ("y", 1, U(8), None, None))), ("impl", "can", "A", None, (("id", 1),), ())]),
+    ("A-is-64-bits", [("struct", "A", (("x", 0, U(64), None, None),)), ("impl", "can", "A", None, (("id", 2),), ())]),
+    ("dup-can-id", [("struct", "A", (("x", 0, U(8), None, None),)), ("struct", "B", (("x", 0, U(8), None, None),)), ("impl", "can", "A", None, (("id", 0),), ()), ("impl", "can", "B", None, (("id", 0),), ())]),
+    ("enum-then-struct-A", [("enum", "A", (("p", 0),)), ("struct", "B", (("x", 0, ("ref", "A"), None, None),)), ("impl", "can", "B", None, (("id", 3),), ())]),
+    ("device-unknown", [("struct", "A", (("x", 0, U(8), None, None),)), ("device", "d", (("services", [("id", "T")]),))]),
+]
+
+
+def run_histories(S, tier):
+    """Every sequence of verify() calls (length <= 3, thorough 4) on ONE verifier object per check set,
+    explored by fork-snapshot; each verdict must equal that of a fresh verifier."""
+    from fcp.verifier import make_general_verifier
+    from ..common import fork_histories
+    import fcp_dbc
+    import fcp_can_c
+
+    depth = 3 if tier == "quick" else 4
+    for config in CONFIGS:
+        def fresh():
+            v = make_general_verifier()
+            if config == "dbc":
+                fcp_dbc.Generator().register_checks(v)
+            elif config == "c":
+                fcp_can_c.Generator().register_checks(v)
+            return v
+
+        def verdict(v, decls):
+            try:
+                return "ok" if v.verify(build_fcp(decls)).is_ok() else "fail"
+            except Exception:  # noqa
+                return "fail"
+
+        ref = {name: verdict(fresh(), decls) for name, decls in HIST_TREES}
+        live = {"v": fresh()}
+        trees = dict(HIST_TREES)
+
+        def apply_op(op, hist):
+            return verdict(live["v"], trees[op])
+
+        for hist, got in fork_histories([n for n, _ in HIST_TREES], depth, apply_op):
+            S.count("states")
+            S.count("transitions")
+            S.count("executions")
+            S.count("histories")
+            S.add("nontrivial", ("hist", config, hist))
+            S.add("outcomes", ("hist", config, got))
+            exp, reasons = refverify.verdict(trees[hist[-1]], config)
+            if got != ref[hist[-1]]:
+                S.violation("C09.history", "C09.history/verdict-depends-on-earlier-verify-calls/%s" % config, {"config": config, "ops": ["verify:" + h for h in hist], "trees": {n: d for n, d in HIST_TREES}}, expected=ref[hist[-1]], actual=got)
+            elif (exp == refverify.MUST_PASS and got != "ok") or (exp == refverify.MUST_FAIL and got == "ok"):
+                S.violation("C09.history", "C09.history/wrong-verdict/%s/%s" % (config, hist[-1]), {"config": config, "ops": ["verify:" + h for h in hist]}, expected=exp, actual=got)
+
+
 def run(tier):
     common.bind_repo()
     r = Run("C09", tier)
@@ -193,11 +249,13 @@ def run(tier):
     r.bounds = {"trees_per_scope": counts, "configurations": list(CONFIGS)}
     for s in pmap(make_worker(tier), chunks(list(enumerate(cases)), 200)):
         r.stats.merge(s)
+    run_histories(r.stats, tier)
+    r.bounds["verify_history_depth"] = 3 if tier == "quick" else 4
     r.rule = (
         "states = schema trees built through the constructors, exhaustive inside per-rule sub-scopes (types: <=2 structs {A,B} with 0-2 fields {x,y} x <=2 enums {A,C}; enums: 1-2 enumerators "
         "over names {p,q} x values {0,1}; bindings: <=2 (3 over a reduced alphabet) bindings over name{A,B} x protocol{can,default} x type{A,B,W(65 bits),Z undeclared} x id{absent,1,2}; parser-like trees with "
         "default bindings; sizes: 1-3 fields around 64 bits with the excess in scalars, arrays, nested structs, enums; devices: services absent/[S]/[T]/[S,T]) x check sets {general, +DBC, +C} x every "
-        "permutation of the struct/enum/binding/device lists. oracle = three-valued reference predicate; permutation invariance needs no model. non-trivial = a rule precondition is present."
+        "permutation of the struct/enum/binding/device lists; plus every sequence of verify() calls (7 trees, length <= 3/4) on ONE verifier object per check set (fork-snapshot) compared with a fresh verifier. oracle = three-valued reference predicate; permutation invariance needs no model. non-trivial = a rule precondition is present."
     )
     r.assumptions = ["non-CAN binding wider than 64 bits under the C check set is UNSPECIFIED (either verdict accepted)", "an exception counts as 'did not succeed'"]
     return r.finish()
